@@ -2742,6 +2742,13 @@ def subst_fold(t, mapping):
                     pass
             return ('call', x[1], ('attr', recv, x[2][2]), args, x[4], x[5])
         if k == 'call' and kind(x[2]) == 'attr' and not x[4] and \
+                not x[3] and x[2][2] in ('bit_length', 'bit_count'):
+            recv = go(x[2][1])
+            okr, pr = try_py(recv)
+            if okr and isinstance(pr, int) and not isinstance(pr, bool):
+                return C(getattr(pr, x[2][2])())
+            return ('call', x[1], ('attr', recv, x[2][2]), (), x[4], x[5])
+        if k == 'call' and kind(x[2]) == 'attr' and not x[4] and \
                 x[2][2] == 'get' and kind(x[2][1]) == 'dict' and \
                 1 <= len(x[3]) <= 2:
             # constant_table.get(key[, default]) once the key is constant
